@@ -250,6 +250,9 @@ def run(ctx: common.Run):
         return
     check_seeded_sampling(ctx, cirq)
     check_state_api_seeds(ctx, cirq)
+    # feed-forward on the integer value of mixed-dimension records (the classical data store against the Lean digits model)
+    from harness.props import c18
+    c18.check_classical_store_ints(ctx, cirq)
     check_scoped_feed_forward(ctx, cirq)
     check_sampling_is_pure(ctx, cirq)
     n = 160 if ctx.tier == 'quick' else 1500
